@@ -194,7 +194,7 @@ def selectH (j : Json) : R Json := do
     match props.find? (fun p => p.pair == pr), mds.find? (fun d => d.m.id == m.id) with
     | some p, some d => passAuto (judge p d).minM d.osnr margin
     | _, _ => false
-  let cur := selectModeCurrent feas modes spacing
+  let cur := selectModeOld feas modes spacing
   let rep := selectMode feas modes spacing
   let allCur := (pairsDesc modes spacing).flatMap (fun pr => (modesOf modes spacing pr.1).map (fun m => (pr, m)))
   let explCur := takeUntilIncl (fun (x : (Int × Int) × Mode) => feas x.1 x.2) allCur
